@@ -425,6 +425,22 @@ func (in *Inst) applyUJ(o OpUJ) (fs []seqx.Finding, outcome string) {
 		if err == nil {
 			add([]string{"C10"}, "sink-error-swallowed", "sink failed but UpdateJustified returned nil")
 		}
+		// "each dropped node is reported once": a node whose report FAILED has not been reported, so it must not
+		// have been dropped (it can still be delivered later); the nodes reported before it are gone.
+		if rel := in.failAt - ncalls; rel >= 0 && rel < len(calls) {
+			if r := calls[rel].Ref; !exists(r) {
+				if _, inSet := func() (PrunedNode, bool) {
+					for _, p := range res.Pruned {
+						if p.Ref == r {
+							return p, true
+						}
+					}
+					return PrunedNode{}, false
+				}(); inSet {
+					add([]string{"C10"}, "sink-failure/refused-node-dropped", fmt.Sprintf("the sink refused node %s (call %d) but the node was dropped all the same: it is lost without ever being reported", r, in.failAt))
+				}
+			}
+		}
 		in.broken = true
 	}
 	exp := map[Ref]PrunedNode{}
